@@ -27,6 +27,9 @@ try:
 finally:
     sh("git -C /repo worktree remove --force %s; git -C /repo worktree prune" % wt)
     shutil.rmtree(evd, ignore_errors=True)
+    import glob
+    for g in glob.glob(os.path.join(ROOT, "build", "*_" + os.path.basename(wt))):
+        shutil.rmtree(g, ignore_errors=True) if os.path.isdir(g) else os.remove(g)
 old = {}
 rp = os.path.join(d, "result.json")
 if os.path.exists(rp):
